@@ -11,7 +11,7 @@ Per run (see DESIGN.md section 2.1):
   (S) collect property witnesses found by the oracles on the implementation.
 Exit 0 / exit 1 + "VIOLATION property=<id> replay=<path>".
 """
-import argparse, fcntl, hashlib, json, os, re, shutil, subprocess, sys, time
+import argparse, fcntl, hashlib, json, os, re, resource, shutil, subprocess, sys, time
 
 ROOT = os.path.dirname(os.path.dirname(os.path.abspath(__file__)))
 COQ = os.path.join(ROOT, "coq")
@@ -217,13 +217,23 @@ def run_model(cases, order, work):
             f.write("%s\t%s\n" % (i, cases[i][0]))
     drv = os.path.join(ROOT, "ocaml", "_build", "driver")
     with open(inp) as fi:
-        p = subprocess.run([drv], stdin=fi, stdout=subprocess.PIPE, stderr=subprocess.PIPE, text=True, timeout=3000)
+        # extracted list functions are not tail recursive: lines of > 100 kB need a deep stack
+        p = subprocess.run([drv], stdin=fi, stdout=subprocess.PIPE, stderr=subprocess.PIPE, text=True, timeout=3000,
+                           preexec_fn=big_stack)
     res = {}
     for line in p.stdout.splitlines():
         if "\t" in line:
             i, o = line.split("\t", 1)
             res[i] = o
     return res, p.returncode, p.stderr[-2000:]
+
+
+def big_stack():
+    try:
+        hard = resource.getrlimit(resource.RLIMIT_STACK)[1]
+        resource.setrlimit(resource.RLIMIT_STACK, (hard, hard))
+    except (ValueError, OSError):
+        pass
 
 
 def coq_str(s):
